@@ -142,6 +142,21 @@ def gen_string(rng, p_mal):
     return "x"
 
 
+SMALL_ALPHABET = ["x", "a", "2", "0", ":", "(", ")", ",", " ", "\\"]
+
+
+def small_scope_cases(maxlen):
+    """Every string over SMALL_ALPHABET up to the given length, with seq absent / True / False."""
+    import itertools
+    out = []
+    for n in range(maxlen + 1):
+        for tup in itertools.product(SMALL_ALPHABET, repeat=n):
+            s = "".join(tup)
+            for seq in ("absent", True, False):
+                out.append({"t": "expand", "pat": {"s": s}, "seq": seq})
+    return out
+
+
 def gen_pat(rng, depth, p_mal, allow_set=True):
     r = rng.random()
     if depth == 0 or r < 0.35:
@@ -219,7 +234,7 @@ def gen_element_case(rng):
     if basic:
         n = 1 if (fn == "element_of" and r < 0.75) else rng.choice([1, 2, 3, 4])
     else:
-        n = ncomp if r < 0.65 else max(0, ncomp + rng.choice([-2, -1, 1, 1, 2]))
+        n = ncomp if r < 0.78 else max(0, ncomp + rng.choice([-2, -1, 1, 1, 2]))
     q = rng.random()
     if basic and n == 1 and q < 0.7:
         pat = {"s": rng.choice("uvwpq") + rng.choice(["", "0", "1", "_h", "\\,1", "(1)"])}
@@ -436,16 +451,18 @@ def python_replay(case):
 def main(run, replay=None):
     rng = run.rng
     quick = run.tier == "quick"
-    n_expand, n_elem = (5000, 1500) if quick else (60000, 15000)
+    n_expand, n_elem = (4000, 1500) if quick else (60000, 15000)
     proof_ok = run.coq_props()
 
-    cases = []
+    cases, small = [], []
     cpath = run.work.parents[1] / "corpus" / "C20.json"
     corpus = json.load(open(cpath)) if cpath.exists() else []
     if replay:
         cases = [json.load(open(replay))["case"]]
     else:
         cases += corpus
+        small = small_scope_cases(3 if quick else 4)
+        cases += small
         for _ in range(n_expand):
             cases.append(gen_expand_case(rng))
         for _ in range(n_elem):
@@ -550,6 +567,7 @@ def main(run, replay=None):
                    found_input=False, theorem_or_case="%s (%s)" % (fo["lemma"], fo["where"]))
 
     # ---- evidence
+    srcdiff, _ = run.impl("C20_impl", {"srcdiff": 1})
     feat_hist, len_hist, res_hist, seq_hist, kinds = {}, {}, {}, {}, {"expand": 0, "element": 0}
     elem_hist = {"fn": {}, "space_shape": {}, "result": {}}
     distinct = set()
@@ -601,14 +619,18 @@ def main(run, replay=None):
         "agree_disagree_per_function": {k: {"agree": v[0], "disagree": v[1]} for k, v in sorted(per_label.items())},
         "property_oracle_failures": len(prop_fail),
         "property_oracle_failure_kinds": sorted({json.dumps(s, sort_keys=True) for _, s in prop_fail.values()}),
+        "small_scope": {"alphabet": SMALL_ALPHABET, "max_length": (3 if quick else 4) if small else 0,
+                        "cases": len(small), "note": "every string over this alphabet up to this length, with seq absent / True / "
+                        "False, is run through both implementations and both models (exhaustive for this scope)"},
+        "source_comparison": srcdiff,
         "strings_generated": nstrings,
         "string_length_histogram": dict(sorted(len_hist.items(), key=lambda kv: int(kv[0].split("-")[0]))),
         "feature_histogram": dict(sorted(feat_hist.items())),
         "seq_histogram": seq_hist,
         "expand_result_kinds": dict(sorted(res_hist.items())),
         "element_cases": elem_hist,
-        "samples": [cases[i] for i in sorted(set([0, len(corpus), len(cases) - 1]) & set(range(len(cases))))][:3]
-                   + [c for c in cases[len(corpus):len(corpus) + 40] if "s" not in c["pat"]][:1],
+        "samples": [cases[i] for i in sorted(set([0, len(corpus) + len(small), len(cases) - 1]) & set(range(len(cases))))][:3]
+                   + [c for c in cases[len(corpus) + len(small):len(corpus) + len(small) + 60] if "s" not in c["pat"]][:2],
         "exhaustive": False,
         "trusted_base": ["tools/impl/C20_impl.py (runner, oracle) and tools/props/C20.py (generator, serialiser to Gallina)",
                          "Python built-ins (str.strip/split/replace, re.split, int, str, range, itertools.product) as modelled in "
@@ -622,5 +644,8 @@ def main(run, replay=None):
         "without CPython's 4300-digit limit.",
         "A Python set is modelled by the list of its members in iteration order; set results are compared as sets.",
         "Function spaces are identified by (kind, name); the runner identifies the `.space` of a created function by object identity.",
+        "The two models share the loop body of the string branch (coq/Model/PatternsM.v part 2); coverage.source_comparison records, "
+        "on every run, the statement-level diff of the two Python functions that justifies it (they differ only where `seq` is read "
+        "and in the recursive call); each model is nevertheless tied to its own implementation by the correspondence run.",
     ]
     return run.finish(cov, assumptions)
